@@ -537,6 +537,11 @@ func (rg *registry) IsFull() bool {
 	return rg.top >= cap(rg.array)
 }
 
+// hasRoom reports whether n more values can be pushed without overflowing the registry.
+func (rg *registry) hasRoom(n int) bool {
+	return n <= cap(rg.array)-rg.top || n <= rg.maxSize-rg.top
+}
+
 /* }}} */
 
 /* Global {{{ */
@@ -1995,6 +2000,9 @@ func (ls *LState) Resume(th *LState, fn *LFunction, args ...LValue) (ResumeState
 	}
 	if ls.Status(th) == "normal" {
 		return ResumeError, newApiErrorS(ApiErrorRun, "can not resume a normal thread"), nil
+	}
+	if !resumeFits(th, len(args)) {
+		return ResumeError, newApiErrorS(ApiErrorRun, "too many arguments to resume"), nil
 	}
 	th.Parent = ls
 	ls.G.CurrentThread = th
